@@ -72,7 +72,7 @@ class SpecGen:
     # ------------------------------------------------------------------ ids
     def fresh(self, sp, stem="o"):
         self.n += 1
-        pool = ["a", "b", "x", "theta", "tree.ratios", "kappa", "p", "node"]
+        pool = ["a", "b", "x", "theta", "tree.ratios", "kappa", "p", "node", "GTR.rates", "Ne", "A"]
         s = self.rng.choice(pool) if self.rng.random() < 0.3 else stem
         return f"{s}{self.n}"
 
@@ -321,6 +321,8 @@ def mutate(sp: Spec, rng, which=None):
     """apply one malformation in place; returns (tag, must_reject: bool, detail) or None if not applicable"""
     which = which or rng.choice(MUTATIONS)
     lits = sp.lits
+    if not lits:
+        which = "dangling"
     if which == "dup-ancestor":
         c = [d for d in lits if sp.meta[id(d)]["parent"] is not None]
         if not c:
@@ -381,9 +383,10 @@ def mutate(sp: Spec, rng, which=None):
     if which == "not-valid":
         if sp.refs and rng.random() < 0.7:
             c, k = rng.choice(sp.refs)
-            c[k] = rng.choice([3, 1.5, None, True])
-            # a number where a Distribution/Transform argument is expected is legal there
-            must = isinstance(c, list) or "type" in c
+            # a number where a Distribution/Transform argument is expected is legal there (and, for a
+            # Distribution over a LIST x, crashes with AttributeError in x.dtype — not an id matter): use null
+            c[k] = rng.choice([3, 1.5, None, True]) if (isinstance(c, list) or "type" in c) else None
+            must = True
         else:
             sp.top.append(rng.choice([3, None, True]))
             must = True
